@@ -133,7 +133,8 @@ def truncate(obj, limit=1500):
 # sub-checks
 
 class Sub:
-    def __init__(self, name, strategy, oracle, quick, thorough, rule="", shards=True, plain=None):
+    def __init__(self, name, strategy, oracle, quick, thorough, rule="", shards=True, plain=None, machine=None,
+                 steps=12):
         """strategy may be a hypothesis strategy or a zero-argument callable returning one.
         plain: optional callable(tier, seed) -> iterable of cases for sub-checks that enumerate
         a finite space instead of sampling it (reported as exhaustive)."""
@@ -144,6 +145,10 @@ class Sub:
         self.rule = rule
         self.shards = shards
         self.plain = plain
+        # machine: callable(report_hook) -> RuleBasedStateMachine subclass (Hypothesis stateful mode); its instances
+        # keep the executed steps in .steps (JSON-able) and call report_hook(case, info) from teardown()
+        self.machine = machine
+        self.steps = steps
 
     @property
     def strategy(self):
@@ -194,6 +199,8 @@ def run_sub_shard(args):
         sub = {s.name: s for s in mod.subs()}[subname]
         if sub.plain is not None:
             _run_plain(sub, rep, tier, seed, shard, nshards)
+        elif sub.machine is not None:
+            _run_machine(sub, rep, tier, seed, shard, nshards)
         else:
             _run_hypothesis(sub, rep, tier, seed, shard, nshards)
     except Exception:
@@ -220,6 +227,41 @@ def _run_plain(sub, rep, tier, seed, shard, nshards):
             rep["evaluations"] += 1
             return
         _absorb(rep, case, info)
+
+
+def _run_machine(sub, rep, tier, seed, shard, nshards):
+    """Hypothesis stateful mode: rules are public API calls, the whole history shrinks as one value."""
+    from hypothesis import settings, seed as hseed, HealthCheck, Phase
+    from hypothesis.stateful import run_state_machine_as_test
+    n = max(1, sub.budget[tier] // nshards)
+    shrink_budget = 20.0 if tier == "quick" else 180.0
+    state = {"first_fail_t": None, "last_fail": None}
+
+    def hook(kind, case, info):
+        if kind == "start":
+            if state["first_fail_t"] is not None and time.time() - state["first_fail_t"] > shrink_budget:
+                raise _Abort()
+        elif kind == "known":
+            rep["known"][info.fid] = rep["known"].get(info.fid, 0) + 1
+            rep["known_msg_" + info.fid] = info.msg
+        elif kind == "violation":
+            if state["first_fail_t"] is None:
+                state["first_fail_t"] = time.time()
+            state["last_fail"] = {"case": jsonable(case), "message": str(info)}
+        elif kind == "done" and state["first_fail_t"] is None:
+            _absorb(rep, case, info)
+
+    cls = sub.machine(hook)
+    st_ = settings(max_examples=n, stateful_step_count=sub.steps, database=None, deadline=None, report_multiple_bugs=False,
+                   suppress_health_check=list(HealthCheck), derandomize=False,
+                   phases=[Phase.explicit, Phase.generate, Phase.shrink])
+    try:
+        run_state_machine_as_test(hseed(seed * 1000 + shard)(cls), settings=st_)
+    except _Abort:
+        rep["failure"] = state["last_fail"]
+        rep["failure"]["shrink"] = "budget exhausted"
+    except Violation:
+        rep["failure"] = state["last_fail"]
 
 
 def _run_hypothesis(sub, rep, tier, seed, shard, nshards):
